@@ -10,7 +10,13 @@ Every class has ONE data flow A.
           T p sh ti tri     A <- A Cp((k + sh) % NT, 0)        [type = ti  type_remote = tri]
   outputs E q to tro        A -> A Cq((k + NT - sh_q) % NT, 0 .. R_q-1)  [type = to  type_remote = tro]
           M ty td           A -> descA(tile(c,k,r))            [type = ty  type_data = td]
+          F q to tro        A -> B Cq((k + NT - sh2_q) % NT, 0 .. R_q-1) [type = to  type_remote = tro]
 in the textual order of the case (ptgpp regroups them by local type).
+A class may have a SECOND data flow   READ B <- A Cp((k + sh2) % NT, 0) [type = ti2 type_remote = tri2]
+(no outputs; "B bfirst p sh2 ti2 tri2" after the outputs; bfirst = 1: B is declared before A, which
+gives B flow index 0 when A has no output) and CONTROL inputs from gate classes ("G n g..":
+CTL gin_g <- gout Cg(k), Cg has R = 1): the task is then made ready by a control flow and every
+data input is looked up again at execution time.
 Shapes: 0 none (attribute absent), 1 FULL (the name DEFAULT), 2 LOWER, 3 UPPER (with the
 diagonal), 4 LOWS, 5 UPPS (without).  Only classes with R = 1 have consumers.
 
@@ -27,7 +33,15 @@ class Cls:
     def __init__(self, R=1, mode="W", modify=0, inp=None, outs=None):
         self.R, self.mode, self.modify = R, mode, modify
         self.inp = inp          # ('D', ty, td) | ('T', p, sh, ti, tri)
-        self.outs = outs or []  # ('E', q, to, tro) | ('M', ty, td)
+        self.outs = outs or []  # ('E', q, to, tro) | ('F', q, to, tro) | ('M', ty, td)
+        self.inp2 = None        # None | (bfirst, p, sh, ti, tri): second data flow B
+        self.gates = []         # classes whose control flow gates this one
+
+    def fidx_a(self):
+        return 1 if (self.inp2 and self.inp2[0] and not self.outs) else 0
+
+    def fidx_b(self):
+        return 1 - self.fidx_a()
 
 
 class Prog:
@@ -57,6 +71,10 @@ def to_case(p):
         w += ["c", c.R, c.mode, c.modify] + list(c.inp) + [len(c.outs)]
         for o in c.outs:
             w += list(o)
+        if c.inp2:
+            w += ["B"] + list(c.inp2)
+        if c.gates:
+            w += ["G", len(c.gates)] + list(c.gates)
     return " ".join(str(x) for x in w)
 
 
@@ -95,10 +113,18 @@ def parse_case(line):
             k = nx()
             if k == "E":
                 c.outs.append(("E", ni(), ni(), ni()))
+            elif k == "F":
+                c.outs.append(("F", ni(), ni(), ni()))
             elif k == "M":
                 c.outs.append(("M", ni(), ni()))
             else:
                 raise ValueError("bad output kind " + k)
+        if pos[0] < len(t) and t[pos[0]] == "B":
+            nx()
+            c.inp2 = (ni(), ni(), ni(), ni(), ni())
+        if pos[0] < len(t) and t[pos[0]] == "G":
+            nx()
+            c.gates = [ni() for _ in range(ni())]
         p.classes.append(c)
     if pos[0] != len(t):
         raise ValueError("trailing tokens")
@@ -122,11 +148,29 @@ def wf(p):
                 return "class %d: producer is replicated" % ci
             if sum(1 for o in p.classes[q].outs if o[0] == "E" and o[1] == ci) != 1:
                 return "class %d: producer %d does not name it exactly once" % (ci, q)
+        if c.inp2:
+            bf, q, sh, ti, tri = c.inp2
+            if not (0 <= q < ci) or not (0 <= sh < p.nt) or p.classes[q].R != 1:
+                return "class %d: bad producer of flow B" % ci
+            if sum(1 for o in p.classes[q].outs if o[0] == "F" and o[1] == ci) != 1:
+                return "class %d: producer %d does not feed its flow B exactly once" % (ci, q)
+            if bf and c.outs:
+                return "class %d: B declared first but A has outputs" % ci
+        for g in c.gates:
+            if not (0 <= g < ci) or p.classes[g].R != 1:
+                return "class %d: bad gate %d" % (ci, g)
+        if len(set(c.gates)) != len(c.gates):
+            return "class %d: gate named twice" % ci
         nm = 0
         for o in c.outs:
             if o[0] == "E":
                 if not (ci < o[1] < len(p.classes)) or p.classes[o[1]].inp[0] != "T" or p.classes[o[1]].inp[1] != ci:
                     return "class %d: output to %d is not matched" % (ci, o[1])
+                if c.R != 1:
+                    return "class %d: replicated class with consumers" % ci
+            elif o[0] == "F":
+                if not (ci < o[1] < len(p.classes)) or not p.classes[o[1]].inp2 or p.classes[o[1]].inp2[1] != ci:
+                    return "class %d: output to flow B of %d is not matched" % (ci, o[1])
                 if c.R != 1:
                     return "class %d: replicated class with consumers" % ci
             else:
@@ -135,8 +179,9 @@ def wf(p):
                     return "class %d: READ flow written back" % ci
         if nm > 1:
             return "class %d: two write-backs" % ci
-        if len([o for o in c.outs if o[0] == "E"]) != len({o[1] for o in c.outs if o[0] == "E"}):
-            return "class %d: consumer named twice" % ci
+        for kind in ("E", "F"):
+            if len([o for o in c.outs if o[0] == kind]) != len({o[1] for o in c.outs if o[0] == kind}):
+                return "class %d: consumer named twice" % ci
     return None
 
 
@@ -166,6 +211,12 @@ def to_jdf(p, name="rscase"):
         L.append("r = 0 .. %d" % (c.R - 1))
         L.append(": descA(%s)" % tile)
         mode = "RW  " if c.mode == "W" else "READ"
+        bline = None
+        if c.inp2:
+            bf, q2, sh2, ti2, tri2 = c.inp2
+            bline = "READ B <- A C%d((k + %d) %% NT, 0)%s" % (q2, sh2, _attrs(ti2, tri2, "type_remote"))
+            if bf:
+                L.append(bline)
         if c.inp[0] == "D":
             first = "%s A <- descA(%s)%s" % (mode, tile, _attrs(c.inp[1], c.inp[2], "type_data"))
         else:
@@ -177,11 +228,25 @@ def to_jdf(p, name="rscase"):
                 q = o[1]
                 sh = p.classes[q].inp[2]
                 L.append("       -> A C%d((k + NT - %d) %% NT, 0 .. %d)%s" % (q, sh, p.classes[q].R - 1, _attrs(o[2], o[3], "type_remote")))
+            elif o[0] == "F":
+                q = o[1]
+                sh = p.classes[q].inp2[2]
+                L.append("       -> B C%d((k + NT - %d) %% NT, 0 .. %d)%s" % (q, sh, p.classes[q].R - 1, _attrs(o[2], o[3], "type_remote")))
             else:
                 L.append("       -> descA(%s)%s" % (tile, _attrs(o[1], o[2], "type_data")))
+        if bline and not c.inp2[0]:
+            L.append(bline)
+        for g in c.gates:
+            L.append("CTL  gin%d <- gout C%d(k, 0)" % (g, g))
+        gated = [qi for qi, Q in enumerate(p.classes) if ci in Q.gates]
+        for n, qi in enumerate(gated):
+            L.append("%s -> gin%d C%d(k, 0 .. %d)" % ("CTL  gout" if n == 0 else "         ", ci, qi, p.classes[qi].R - 1))
         L.append("BODY")
         L.append("{")
-        L.append("    RS_BODY(this_task, %d, k, r, _f_A, %d);" % (ci, c.modify))
+        if c.inp2:
+            L.append("    RS_BODY2(this_task, %d, k, r, _f_A, %d, _f_B);" % (ci, c.modify))
+        else:
+            L.append("    RS_BODY(this_task, %d, k, r, _f_A, %d);" % (ci, c.modify))
         L.append("}")
         L.append("END")
         L.append("")
@@ -206,7 +271,7 @@ def to_jdf(p, name="rscase"):
 
 # ------------------------------------------------------------------ static structure helpers
 def out_lt(o):
-    return o[2] if o[0] == "E" else o[1]
+    return o[2] if o[0] in ("E", "F") else o[1]
 
 
 def order_outs(outs):
@@ -227,13 +292,20 @@ def succs(p, c, k):
     dicts q k r to tro ti tri rank"""
     res = []
     for o in order_outs(p.classes[c].outs):
-        if o[0] != "E":
+        if o[0] not in ("E", "F"):
             continue
         q = o[1]
-        _, _, sh, ti, tri = p.classes[q].inp
+        Q = p.classes[q]
+        if o[0] == "E":
+            _, _, sh, ti, tri = Q.inp
+            fl, flow = Q.fidx_a(), "A"
+        else:
+            _, _, sh, ti, tri = Q.inp2
+            fl, flow = Q.fidx_b(), "B"
         kq = (k + p.nt - sh) % p.nt
-        for r in range(p.classes[q].R):
-            res.append({"q": q, "k": kq, "r": r, "to": o[2], "tro": o[3], "ti": ti, "tri": tri, "rank": p.rank_of(q, kq, r)})
+        for r in range(Q.R):
+            res.append({"q": q, "k": kq, "r": r, "to": o[2], "tro": o[3], "ti": ti, "tri": tri, "rank": p.rank_of(q, kq, r),
+                        "fl": fl, "flow": flow})
     return res
 
 
@@ -266,7 +338,7 @@ def chain_only(p, c):
             return True
         q = C.inp[1]
         Q = p.classes[q]
-        if len(Q.outs) != 1:
+        if len(Q.outs) != 1 or C.inp2 or Q.inp2:
             return False
         c = q
 
@@ -407,6 +479,19 @@ def declared(p):
                             return False, "C%d <- C%d remote sizes differ" % (ci, q), dtt
                         dtt[(ci, k, r)] = b
                     own[(ci, k, r)] = False
+                if C.inp2:
+                    _, q, sh, ti, tri = C.inp2
+                    pk_ = (q, (k + sh) % p.nt, 0)
+                    d = dtt[pk_]
+                    o = [x for x in p.classes[q].outs if x[0] == "F" and x[1] == ci][0]
+                    if p.rank_of(*pk_) == me:
+                        e = expected_local(d, o[2], ti)
+                        if e is not None and nsel(e[0], p.mb) > nsel(e[1], p.mb):
+                            return False, "C%d.B <- C%d packs more than it unpacks" % (ci, q), dtt
+                    else:
+                        a, b = (o[3] or d), (tri or 1)
+                        if nsel(a, p.mb) != nsel(b, p.mb):
+                            return False, "C%d.B <- C%d remote sizes differ" % (ci, q), dtt
                 for x in C.outs:
                     if x[0] == "M" and not own[(ci, k, r)]:
                         a, b = (x[1] or dtt[(ci, k, r)]), (x[2] or 1)
@@ -416,17 +501,74 @@ def declared(p):
 
 
 def mixed_outputs(p):
-    """a producer instance serves, on one rank, successors through output dependencies of different [type]
-    (its own rank) or through different messages (another rank): the situations in which the carried
-    reshape promise of notes/findings/C18-stale-promise.md matters"""
+    """the situations in which the carried reshape promise of notes/findings/C18-stale-promise.md matters:
+    a producer instance serves, on its OWN rank, successors through output dependencies of different [type]
+    (stale promise, truncating conversion, NULL execution stream), or sends to another rank a message that is
+    received PACKED (unfulfilled promises there) together with another message (NULL execution stream)"""
     for ci, C in enumerate(p.classes):
         if C.R != 1:
             continue
         for k in range(p.nt):
             me = p.rank_of(ci, k, 0)
-            per = {}
+            local, msgs = set(), {}
             for u in succs(p, ci, k):
-                per.setdefault(u["rank"], set()).add(u["to"] if u["rank"] == me else (u["to"], u["tro"]))
-            if any(len(v) > 1 for v in per.values()):
+                if u["rank"] == me:
+                    local.add(u["to"])
+                else:
+                    msgs.setdefault(u["rank"], {}).setdefault((u["to"], u["tro"]), set()).add(u["tri"] or 1)
+            if len(local) > 1:
                 return True
+            for m in msgs.values():
+                if len(m) > 1 and any(len(v) > 1 for v in m.values()):
+                    return True
     return False
+
+
+def gen_twoflow(rng, nranks=2):
+    """the family of the second data flow: one producer flow fans out copies of different type_remote (full, two
+    triangles) to consumers on ONE other rank; consumers C / C2 receive the two triangles on two data flows declared
+    in both orders (flow indices 0/1 and 1/0, the producer's flow has index 0), and are made ready by control flows
+    from two gate tasks that consume the same copies, so that every data input is looked up again at execution time
+    (the promise of the later message sits in the consumer's own repo entry, at the CONSUMER's flow index)."""
+    p = Prog()
+    p.nranks = nranks
+    p.mb = rng.pick([2, 3, 3, 4])
+    p.esz = rng.pick([1, 4, 4, 8])
+    p.nt = rng.pick([1, 2, 2, 3])
+    a, b = rng.pick([(2, 3), (3, 2), (2, 3), (4, 5)])
+    swap = rng.chance(1, 2)          # which triangle goes to flow A of the consumers
+    ta, tb = (b, a) if swap else (a, b)
+    loc = rng.pick([0, 0, 0, 2])     # local [type] on some edges (remote path ignores it)
+    sh = rng.below(p.nt)
+    P0 = Cls(1, "W", rng.pick([0, 1]), ("D", 0, 0), [])
+    p.classes = [P0]
+
+    def single(t, mode="R"):
+        ci = len(p.classes)
+        p.classes.append(Cls(1, mode, 0, ("T", 0, sh, 0, t), []))
+        P0.outs.append(("E", ci, 0, t))
+        return ci
+    if rng.chance(2, 3):
+        single(rng.pick([0, 1]))                       # full-tile consumer: a third message
+    ga, gb = single(ta), single(tb)                    # gates
+    ncons = rng.pick([2, 2, 3])
+    for n in range(ncons):
+        ci = len(p.classes)
+        c = Cls(rng.pick([1, 1, 2]), "R", 0, ("T", 0, sh, rng.pick([0, 0, loc]), ta), [])
+        c.inp2 = (n % 2, 0, sh, 0, tb)                 # alternate the declaration order of A and B
+        c.gates = rng.pick([[ga, gb], [ga, gb], [gb], [ga]])
+        p.classes.append(c)
+        P0.outs.append(("E", ci, 0, ta))
+        P0.outs.append(("F", ci, 0, tb))
+    P0.outs = rng.shuffle(P0.outs)
+    if rng.chance(1, 3):
+        P0.outs.insert(rng.below(len(P0.outs) + 1), ("M", 0, 0))
+    # producer on rank 0, every consumer on rank 1 (one remote rank receives all the messages)
+    p.owner = [0] * p.nt
+    for c in p.classes[1:]:
+        p.owner += [1] * (p.nt * c.R)
+    p.cores = rng.pick([1, 2])
+    p.mt = rng.pick([0, 0, 1])
+    p.short = 0
+    assert wf(p) is None, wf(p)
+    return p
